@@ -2,12 +2,20 @@
    (property C07).  One stream of 32-byte blocks [stream : nat -> bytes] (block i = the i-th 32 bytes
    the OS generator returns to this process), consumed through a counter.  Which operation draws what,
    and in which order, is transcribed from the code:
-     key_encrypt           : payload key (PayloadKey::generate), then the ephemeral private key
-                             (noise write_message, token e)               [encrypt.rs, noise.rs]
+     key_encrypt           : payload key (`PayloadKey::new(secure_random(32).as_slice())`, only when none is
+                             injected), then the ephemeral private key (`PrivateKey::generate()` in noise
+                             write_message, token e, unless BOTH halves of an ephemeral pair are injected)
+                                                                           [encrypt.rs, noise.rs]
      pass encrypt (CLI)    : the 32-byte file salt                         [cli/commands.rs]
      key generate (CLI)    : the private key, then the 32-byte lock salt   [cli/commands.rs, keyring.rs]
      change-pass (CLI)     : the new 32-byte lock salt                     [cli/commands.rs, keyring.rs]
-   Definitions only; the proofs are in Proofs/CombineRand.v.  NOT modelled: that the OS generator's
+   Definitions only; the proofs are in Proofs/CombineRand.v.  [op_roles] is no longer a free-standing
+   transcription: Model/RandRun.v runs Files.key_encrypt and the Cli.cmd_* commands on such a stream, drawing
+   where the program draws, and Proofs/RandRoles.v proves that a run that reaches its end journals exactly
+   [draw_roles .. (op_roles o)], a run that fails early a prefix of it, and that the run equals the
+   explicit-argument model function on the blocks drawn (C07_command_draws, C07_history_draws_are_run_history).
+   Draws skipped by an early failure and the half-injected ephemeral pair are covered there.
+   NOT modelled: a failing getrandom (`expect` panic); that the OS generator's
    blocks are unpredictable or distinct — that is a premise ([NoDup] of the blocks) where needed. *)
 From Kestrel Require Import Bytes.
 
